@@ -71,6 +71,25 @@ def gen_cases(ctx):
         p = [gen.rand_dyadic(rng, 2, 1) for _ in range(2)]
         q = [x + Fraction(1, 2**30) for x in p]
         cases.append(("neardup", cn, [p, q] + [[gen.rand_dyadic(rng, 2, 1) for _ in range(2)] for _ in range(rng.randint(0, 3))]))
+    # wide dynamic range (deterministic, own rng): a few rows carry a penalty value such as -1e18 next to ordinary
+    # small values.  Under axis-aligned cones every decision is the sign of a single float subtraction, which IEEE
+    # arithmetic gets exactly right, so the implementation must still agree with the exact model.
+    import random as _random
+    drng = _random.Random(1313)
+    for k in range(24 if ctx.quick else 120):
+        cn = ["orthant2", "orthant3", "halfplane2", "slab3"][k % 4]
+        dim = 2 if cn.endswith("2") else 3
+        n = drng.choice([3, 4, 6, 9, 14])
+        pen = Fraction(drng.choice([-10**18, -10**17, -10**13, 10**15]))
+        small = drng.choice([1, 1, Fraction(1, 2048)])
+        pts = [[Fraction(drng.randint(0, 30)) * small for _ in range(dim)] for _ in range(n)]
+        for _ in range(drng.choice([1, 1, 2])):
+            row = drng.randrange(n)
+            for c in (range(dim) if drng.random() < 0.4 else [drng.randrange(dim)]):
+                pts[row][c] = pen
+        if k % 3 == 0:
+            pts = [pts[-1]] + pts[:-1]
+        cases.append(("dynrange", cn, pts))
     return cases
 
 
